@@ -1,4 +1,4 @@
-CONSTANTS NK = 3 KeyCls <- Cls3 KeyTyp <- Typ3 Bytes = {65, 98} L = 32 MaxEv = 7 HalfGuard = TRUE
+CONSTANTS NK = 3 KeyCls <- Cls3 KeyTyp <- Typ3 Bytes = {64, 98} L = 32 MaxEv = 7 ErrPairs <- ErrFew HalfGuard = TRUE
 SPECIFICATION GSpec
 VIEW gview
 CONSTRAINT Dump
